@@ -1,4 +1,5 @@
 import Tahoe.Storage.CrashLemmas
+import Tahoe.Storage.ImmConnLemmas
 /-!
 C29 — share containers survive a server crash (immutable containers; property theorems only).
 Model: `Tahoe/Base/FsOp.lean` (primitive operations, crash = prefix), `Tahoe/Storage/Crash.lean`
@@ -17,7 +18,7 @@ are not covered here.
 | every share not being written keeps its data and leases | `other_shares_untouched` (one storage operation), `other_shares_untouched_seq` (whole server operations = lists of storage operations: allocate_buckets, add_lease over an SI) — byte-for-byte |
 | an operation that only adds or renews leases never changes any share's data | FALSE for immutable `add_lease`: `lease_ops_preserve_data_counterexample` (open known finding); `lease_ops_preserve_data_partial` (every crash index but the one between record and count write; renewals always) |
 | an immutable share is either absent or complete | `immutable_absent_or_complete` (non-lease ops; rename is the commit point), `every_crash_prefix_absent_or_complete_partial` (all ops, all prefixes except the known-finding index) |
-| uploads still in progress are discarded at restart | `incoming_discarded_at_restart` (files); reservations/handles after restart: correspondence + monitor only (a fresh `StorageServer` has no writers) |
+| uploads still in progress are discarded at restart | `incoming_discarded_at_restart` (files, crash model), `restart_discards_uploads` (server model: no writer, handle, connection registration or reservation survives; completed shares unchanged; agrees with the crash model's `restart`); restart is a front-end operation of the C22 histories (`FOp.restart`, token `Z`), so all C22/C28 reachable-state theorems hold across restarts |
 | lease-only operation never changes share data — mutable `add_lease` (extra-lease append) | `mutable_add_extra_lease_crash_effect`: data unchanged at every crash index (the leases of the operated-on share being unreadable at index 1 is an observation, not a clause); tied by the real-code probe in harness/props/c29.py |
 | mutable containers: lease relocation when growing, truncation, deletion | not covered here (mutable container models belong to C23–C25) |
 | torn single writes, fsync/durability | not covered (assumption: a single write/rename is atomic and durable) |
@@ -270,6 +271,37 @@ theorem mutable_add_extra_lease_crash_effect (fs : IFs) (p : Path) (f : File) (r
 set_option maxRecDepth 20000 in
 example : MutWF mutEx ∧ Mutable.extOff mutEx = 468 ∧ Mutable.numExtra mutEx = 0 ∧ mutEx.length = 472 :=
   ⟨⟨by decide, by decide, by decide⟩, by decide, by decide, by decide⟩
+
+/-- **restart_discards_uploads** (server level): killing the server process and starting a new
+    `StorageServer` on the directory leaves no upload in progress — no writer, no live handle, no
+    connection registration, no reservation — turns every in-progress share of the specification
+    into "absent" and leaves every completed share exactly as it was; and the file system of the
+    restarted server model is the crash model's `restart` of the old one. -/
+theorem restart_discards_uploads (s : Server) :
+    allocatedSize (restartOp s) = 0 ∧ (restartOp s).incoming = [] ∧ (restartOp s).final = s.final ∧
+    (∀ wid, findWid wid (restartOp s).incoming = none) ∧ (∀ c, widsOfConn (restartOp s) c = []) ∧
+    (∀ k, absShare (restartOp s) k = match absShare s k with
+      | .inProgress _ _ => .absent
+      | other => other) ∧
+    fsOfServer (restartOp s) = restart (fsOfServer s) := by
+  refine ⟨rfl, rfl, rfl, fun _ => rfl, fun _ => rfl, ?_, ?_⟩
+  · intro k
+    simp only [restartOp, absShare, getK]
+    cases hfin : getK k s.final with
+    | some f => rfl
+    | none =>
+      simp only
+      cases getK k s.incoming with
+      | none => rfl
+      | some v => rfl
+  · funext p
+    cases p <;> simp [fsOfServer, restart, restartOp, getK]
+
+example :
+    let s := frun (Server.empty false 0) [.allocConn 1 0 [0, 1] 4 recA 1000 [], .direct (.write 0 0 [1, 2, 3, 4]),
+      .direct (.close 0), .direct (.write 1 0 [9])]
+    allocatedSize s = 4 ∧ allocatedSize (fstep s .restart) = 0 ∧ visible (fstep s .restart) (0, 0) = true ∧
+    absShare (fstep s .restart) (0, 1) = .absent ∧ (writeOp (fstep s .restart) 1 1 [8]).2 = .closed := by decide
 
 /-- **incoming_discarded_at_restart**: after a crash at any point of any operation, the restarted
     server has no incoming file at all (`_clean_incomplete`), and restart itself changes no final
